@@ -56,7 +56,9 @@ Record facts := {
   f_oog_only : bool;              (* HandleOutOfGasPanic converts sdk.ErrorOutOfGas only and re-panics the rest *)
   f_addr_conv_total : bool;       (* eth.NibiruAddrToEthAddr is total (gethcommon.BytesToAddress: pads / keeps the last 20 bytes) *)
   f_direct_ro : bool;             (* geth fork StaticCall / DelegateCall / CallCode run precompiles with readOnly = true *)
-  f_call_inherits_static : bool   (* geth fork EVM.Call hands the interpreter's read-only flag to precompiles *)
+  f_call_inherits_static : bool;  (* geth fork EVM.Call hands the interpreter's read-only flag to precompiles *)
+  f_snap_each_call : bool;        (* StateDB.SavePrecompileCalledJournalChange appends the multistore snapshot to the journal on EVERY call *)
+  f_max_calls : Z                 (* maxMultistoreCacheCount: precompile calls one StateDB admits (the count is compared after the increment) *)
 }.
 
 Definition f_len_guard (F : facts) := g_len (f_guards F).
@@ -383,7 +385,8 @@ Arguments r_out {St}. Arguments r_left {St}. Arguments r_st {St}.
 Definition with_guards (F : facts) (g : panic_guards) : facts :=
   {| f_funtoken := f_funtoken F; f_wasm := f_wasm F; f_oracle := f_oracle F; f_guards := g;
      f_local_meter := f_local_meter F; f_oog_only := f_oog_only F; f_addr_conv_total := f_addr_conv_total F; f_direct_ro := f_direct_ro F;
-     f_call_inherits_static := f_call_inherits_static F |}.
+     f_call_inherits_static := f_call_inherits_static F;
+     f_snap_each_call := f_snap_each_call F; f_max_calls := f_max_calls F |}.
 
 Definition all_guards : panic_guards :=
   {| g_len := true; g_denom := true; g_amount := true; g_evm_denom := true; g_erc20_nul := true; g_supply := true |}.
@@ -405,21 +408,147 @@ Definition with_oracle_oog (F : facts) (b : bool) : facts :=
                     pf_oog_deferred := b; pf_usegas := pf_usegas (f_oracle F) |};
      f_guards := f_guards F;
      f_local_meter := f_local_meter F; f_oog_only := f_oog_only F; f_addr_conv_total := f_addr_conv_total F; f_direct_ro := f_direct_ro F;
-     f_call_inherits_static := f_call_inherits_static F |}.
+     f_call_inherits_static := f_call_inherits_static F;
+     f_snap_each_call := f_snap_each_call F; f_max_calls := f_max_calls F |}.
 
 Definition with_call_inherits (F : facts) (b : bool) : facts :=
   {| f_funtoken := f_funtoken F; f_wasm := f_wasm F; f_oracle := f_oracle F; f_guards := f_guards F;
      f_local_meter := f_local_meter F; f_oog_only := f_oog_only F; f_addr_conv_total := f_addr_conv_total F; f_direct_ro := f_direct_ro F;
-     f_call_inherits_static := b |}.
+     f_call_inherits_static := b; f_snap_each_call := f_snap_each_call F; f_max_calls := f_max_calls F |}.
 
 (** a local gas meter that is not capped by the gas left on the contract (seeded change
     "local gas meter oversized": limit = contract.Gas + requiredGas) *)
 Definition with_local_meter (F : facts) (b : bool) : facts :=
   {| f_funtoken := f_funtoken F; f_wasm := f_wasm F; f_oracle := f_oracle F; f_guards := f_guards F;
      f_local_meter := b; f_oog_only := f_oog_only F; f_addr_conv_total := f_addr_conv_total F; f_direct_ro := f_direct_ro F;
-     f_call_inherits_static := f_call_inherits_static F |}.
+     f_call_inherits_static := f_call_inherits_static F;
+     f_snap_each_call := f_snap_each_call F; f_max_calls := f_max_calls F |}.
 
 Definition with_addr_conv (F : facts) (b : bool) : facts :=
   {| f_funtoken := f_funtoken F; f_wasm := f_wasm F; f_oracle := f_oracle F; f_guards := f_guards F;
      f_local_meter := f_local_meter F; f_oog_only := f_oog_only F; f_addr_conv_total := b;
-     f_direct_ro := f_direct_ro F; f_call_inherits_static := f_call_inherits_static F |}.
+     f_direct_ro := f_direct_ro F; f_call_inherits_static := f_call_inherits_static F;
+     f_snap_each_call := f_snap_each_call F; f_max_calls := f_max_calls F |}.
+
+(** SavePrecompileCalledJournalChange that keeps the previous snapshot when the latest journal entry already
+    is a precompile snapshot (seeded change "precompile snapshot coalesced") *)
+Definition with_snap_each (F : facts) (b : bool) : facts :=
+  {| f_funtoken := f_funtoken F; f_wasm := f_wasm F; f_oracle := f_oracle F; f_guards := f_guards F;
+     f_local_meter := f_local_meter F; f_oog_only := f_oog_only F; f_addr_conv_total := f_addr_conv_total F;
+     f_direct_ro := f_direct_ro F; f_call_inherits_static := f_call_inherits_static F;
+     f_snap_each_call := b; f_max_calls := f_max_calls F |}.
+
+(* ------------------------------------------------------------------ one transaction: SEQUENCES of calls on one StateDB *)
+
+(** The calls of one transaction share one StateDB.  What makes "a failed call leaves nothing behind" true
+    for the writes a precompile makes to the OTHER modules (bank, wasm, …: the cache multistore [Ms]) is the
+    journal: OnRunStart -> CacheCtxForPrecompile copies the multistore, SavePrecompileCalledJournalChange
+    appends the copy as a [PrecompileCalled] entry, and evm.Call's RevertToSnapshot(len(journal) at call
+    entry) runs the entries' Revert from the newest down to that length; PrecompileCalled.Revert puts the
+    copy back.  The EVM side [Ev] (state objects: balances, storage, logs; restored by the other journal
+    entries) is C04's subject: here its entries are markers [JEvm] and a reverted call gets [Ev] back as it was.
+
+    [x_cnt] = StateDB.multistoreCacheCount: incremented with every journaled snapshot, never decremented; a
+    call that lifts it above [f_max_calls] fails in OnRunStart (after the entry was appended).
+    decomposeInput comes before all of that: calldata that selects no method / does not decode journals nothing. *)
+Section Tx.
+  Variables Ev Ms : Type.
+  Definition tst : Type := (Ev * Ms)%type.
+  Variable body : mid -> list arg -> tst -> Z -> bres tst.
+  Variable after_mint : mid -> list arg -> tst -> Z -> bres tst.
+  (** the body appended EVM journal entries (ERC20 calls, logs of emitted ABCI events, …) *)
+  Variable evm_touch : mid -> list arg -> tst -> bool.
+  Variable transfer_ev : Ev -> Z -> Ev.
+
+  Inductive jentry := JEvm | JPre (snap : Ms).
+
+  Record txstate := { x_ev : Ev; x_ms : Ms; x_j : list jentry (* newest first *); x_cnt : Z }.
+
+  Definition st_of (x : txstate) : tst := (x_ev x, x_ms x).
+  Definition transfer_t (st : tst) (v : Z) : tst := (transfer_ev (fst st) v, snd st).
+
+  Definition top_is_pre (j : list jentry) : bool := match j with JPre _ :: _ => true | _ => false end.
+
+  (** journal.Revert: undo the [k] newest entries *)
+  Fixpoint unwind (k : nat) (j : list jentry) (ms : Ms) : list jentry * Ms :=
+    match k, j with
+    | S k', JEvm :: r => unwind k' r ms
+    | S k', JPre s :: r => unwind k' r s
+    | _, _ => (j, ms)
+    end.
+  (** StateDB.RevertToSnapshot(revision taken when the journal had [n] entries) *)
+  Definition revert_to (n : nat) (j : list jentry) (ms : Ms) : list jentry * Ms :=
+    unwind (List.length j - n) j ms.
+
+  (** the call gets past RequiredGas and decomposeInput, i.e. OnRunStart journals a snapshot *)
+  Definition reaches_start (F : facts) (P : pc_facts) (cap4 : bool) (gas : Z) (inp : input) : bool :=
+    match required_gas F P cap4 inp with
+    | GPanic => false
+    | GGas rq =>
+        negb (gas <? rq) && negb (i_len inp <? 4) &&
+        match selected P inp, i_unpack inp with Some _, Some _ => true | _, _ => false end
+    end.
+
+  Record xresult := { xr_out : outcome; xr_left : Z; xr_x : txstate }.
+
+  Definition call_x (F : facts) (p : pcid) (k : kind) (value gas : Z) (inp : input) (x : txstate) : xresult :=
+    let P := pc_of F p in
+    let idx := List.length (x_j x) in                                  (* snapshot := evm.StateDB.Snapshot() *)
+    let moved := transfers k && negb (value =? 0) in                    (* Transfer: balance changes are journaled *)
+    let ev1 := if moved then transfer_ev (x_ev x) value else x_ev x in
+    let j1 := if moved then JEvm :: x_j x else x_j x in
+    let started := reaches_start F P (cap4_of k inp) gas inp in
+    (* SavePrecompileCalledJournalChange *)
+    let journaled := started && (f_snap_each_call F || negb (top_is_pre j1)) in
+    let j2 := if journaled then JPre (x_ms x) :: j1 else j1 in
+    let cnt2 := if journaled then x_cnt x + 1 else x_cnt x in
+    let st1 := (ev1, x_ms x) in
+    let r := if journaled && (f_max_calls F <? cnt2)
+             then {| r_out := Err; r_left := 0; r_st := st1 |}
+             else run_pc tst body after_mint F P (cap4_of k inp) (pc_readonly F k) (pc_value k value) gas inp st1 in
+    let touched := match selected P inp, i_unpack inp with
+                   | Some mf, Some args => started && evm_touch (mf_id mf) args st1
+                   | _, _ => false
+                   end in
+    let j3 := if touched then JEvm :: j2 else j2 in
+    match r_out r with
+    | Ok | Panic =>
+        {| xr_out := r_out r; xr_left := r_left r;
+           xr_x := {| x_ev := fst (r_st r); x_ms := snd (r_st r); x_j := j3; x_cnt := cnt2 |} |}
+    | Err | OutOfGas =>
+        (* evm.StateDB.RevertToSnapshot(snapshot); all forwarded gas consumed *)
+        let jm := revert_to idx j3 (snd (r_st r)) in
+        {| xr_out := r_out r; xr_left := 0;
+           xr_x := {| x_ev := x_ev x; x_ms := snd jm; x_j := fst jm; x_cnt := cnt2 |} |}
+    end.
+
+  (** what a transaction does between / around precompile calls *)
+  Inductive op :=
+  | OEvm (f : Ev -> Ev)                                        (* any journaled EVM state change: SSTORE, transfer, log, new account … *)
+  | OCall (p : pcid) (k : kind) (value gas : Z) (inp : input).
+
+  Definition step (F : facts) (x : txstate) (o : op) : txstate :=
+    match o with
+    | OEvm f => {| x_ev := f (x_ev x); x_ms := x_ms x; x_j := JEvm :: x_j x; x_cnt := x_cnt x |}
+    | OCall p k v g i => xr_x (call_x F p k v g i x)
+    end.
+
+  Definition tx_run (F : facts) (ops : list op) (x : txstate) : txstate := fold_left (step F) ops x.
+
+  (** the same transaction with its FAILED precompile calls left out *)
+  Definition step_drop (F : facts) (x : txstate) (o : op) : txstate :=
+    match o with
+    | OEvm _ => step F x o
+    | OCall p k v g i =>
+        match xr_out (call_x F p k v g i x) with
+        | Err | OutOfGas => x
+        | _ => step F x o
+        end
+    end.
+  Definition tx_run_drop (F : facts) (ops : list op) (x : txstate) : txstate := fold_left (step_drop F) ops x.
+End Tx.
+
+Arguments JEvm {Ms}. Arguments JPre {Ms}.
+Arguments x_ev {Ev Ms}. Arguments x_ms {Ev Ms}. Arguments x_j {Ev Ms}. Arguments x_cnt {Ev Ms}.
+Arguments xr_out {Ev Ms}. Arguments xr_left {Ev Ms}. Arguments xr_x {Ev Ms}.
+Arguments OEvm {Ev}. Arguments OCall {Ev}.
